@@ -31,6 +31,7 @@ func init() {
 }
 
 func runC01(c *Ctx) {
+	c01RecordAll(c)
 	p := c.P
 	c.Rule("R-POSTORDER", "closure walks mark before recursing and emit a file after all of its imports", 3)
 	c.Rule("RESORT", "compiled files are put back into target-path order before the walk", 2)
